@@ -17,7 +17,7 @@ use neurons::tensor::Tensor;
 pub fn meta(ctx: &Ctx) -> Meta {
     let t = ctx.tier.thorough();
     Meta {
-        rule: format!("(a) single layers through their public backward(): {} of the lattice L for convolution, deconvolution, max-pool (linear activation; ring x E5), dense n,m in 1..4 x E5 x bias, input and upstream gradient given flat or as CxHxW: weight/kernel, bias and INPUT gradient vs the dual-number derivative of sum_k g_k*out_k. (a') a LARGE-VALUE ring (kernel 5,7; stride 3,4; padding 3; dilation 3; 4,8 channels; 8,16 filters; planes 12x13, 28x32) with <= 1 (thorough 2) deviations, HEAVY layers (3 channels, 8 filters, 24x30 plane: >= 64k multiply-adds; quick: the stride and dilation deviations of convolution and deconvolution, thorough: every single deviation of kernel / stride / padding / dilation per axis for all three kinds), wide dense layers (33, 65x64, 100, 241) alone and stacked. (b) networks: every layer sequence of <= {} tokens over 5 input shapes with <= {} deviations x 7 objectives (cycled), through Network::backward and through one learn() step with SGD (parameter change = -lr*gradient); soft-max head of width 2,3,5 under cross-entropy on every sequence of <= {} tokens: derivative of CE(softmax(z)); networks also built a second way, through placeholder activations and set_activation. Data re-drawn until every ReLU pre-activation and pool runner-up is >= 0.1 from a kink/tie. Non-trivial = case whose reference gradient has >= 2 distinct non-zero entries",
+        rule: format!("(a) single layers through their public backward(): {} of the lattice L for convolution, deconvolution, max-pool (linear activation; ring x E5), dense n,m in 1..4 x E5 x bias, input and upstream gradient given flat or as CxHxW: weight/kernel, bias and INPUT gradient vs the dual-number derivative of sum_k g_k*out_k. (a') a LARGE-VALUE ring (kernel 5,7; stride 3,4; padding 3; dilation 3; 4,8 channels; 8,16 filters; planes 12x13, 28x32) with <= 1 (thorough 2) deviations, HEAVY layers (3 channels, 8 filters, 24x30 plane: >= 64k multiply-adds; quick: the stride and dilation deviations of convolution and deconvolution, thorough: every single deviation of kernel / stride / padding / dilation per axis for all three kinds), wide dense layers (33, 65x64, 100, 241) alone and stacked; max-pool windows (7 kernel/stride settings) over pairwise distinct EXTREME finite values f32::MIN .. f32::MAX in every rotation, exact routing oracle. (b) networks: every layer sequence of <= {} tokens over 5 input shapes with <= {} deviations x 7 objectives (cycled), through Network::backward and through one learn() step with SGD (parameter change = -lr*gradient); soft-max head of width 2,3,5 under cross-entropy on every sequence of <= {} tokens, and soft-max OUTPUT LAYERS that are convolutions / deconvolutions: derivative of CE(softmax(z)); networks also built a second way, through placeholder activations and set_activation. Data re-drawn until every ReLU pre-activation and pool runner-up is >= 0.1 from a kink/tie. Non-trivial = case whose reference gradient has >= 2 distinct non-zero entries",
             if t { "the FULL lattice" } else { "the ring of <= 2 deviations" }, if t { 3 } else { 2 }, if t { 2 } else { 1 }, if t { 2 } else { 1 }),
         bound: "kernel <= 3, stride <= 2(3), padding <= 2, dilation <= 2, planes <= 6x7, depth <= 3 (+ soft-max head)".into(),
         exhaustive: true,
@@ -198,6 +198,71 @@ pub fn check_layer(net: &Net, flat_in: bool, flat_grad: bool, seed: u64, case: &
             Err(e) => rep.violate(format!("C01 {} kernel gradient shape{}", kind, cls), e, case),
         },
         _ => (),
+    }
+}
+
+/// max-pool on pairwise distinct EXTREME finite values (f32::MIN, -1e38, .., 1e38, f32::MAX), rotated so that every
+/// value visits every position: the gradient handed back must route each upstream entry to the window's maximum
+/// (a selection: no arithmetic, so the oracle is exact)
+fn check_pool_extreme(case: &Kv, rep: &mut Report) {
+    rep.states += 1;
+    rep.evaluations += 1;
+    rep.nontrivial += 1;
+    let (kh, kw, sh, sw) = (case.usize("kh"), case.usize("kw"), case.usize("sh"), case.usize("sw"));
+    let (c, h, w) = (2usize, 3usize, 4usize);
+    let rot = case.usize("rot");
+    const X: [f32; 12] = [f32::MIN, -1.0e38, -3.0, -1.0e-45, 0.0, 1.0e-45, 0.5, 2.5, 7.0, 1.0e30, 1.0e38, f32::MAX];
+    let x: Vec<f32> = (0..c * h * w).map(|i| X[(i + rot + (i / 12) * 5) % 12]).collect();
+    let net = Net::new(Dims::Chw(c, h, w), vec![L::Pool { k: (kh, kw), s: (sh, sw) }]);
+    let shapes = match ref_shapes(&net) {
+        Ok(s) => s,
+        Err(_) => return,
+    };
+    let lib = match crate::libnet::build_with_simple(&net, &[P::empty()]) {
+        Ok(l) => l,
+        Err(e) => {
+            rep.violate("C01 pool builder rejects", e, case);
+            return;
+        }
+    };
+    let (oc, oh, ow) = match shapes[0].out {
+        Dims::Chw(a, b, d) => (a, b, d),
+        _ => return,
+    };
+    let g: Vec<f32> = (0..oc * oh * ow).map(|i| 1.0 + i as f32).collect();
+    // exact routing
+    let mut want = vec![0.0f32; c * h * w];
+    for cc in 0..c {
+        for a in 0..oh {
+            for b in 0..ow {
+                let mut best = (0usize, f32::NEG_INFINITY);
+                for i in 0..kh {
+                    for j in 0..kw {
+                        let idx = (cc * h + a * sh + i) * w + b * sw + j;
+                        if x[idx] > best.1 {
+                            best = (idx, x[idx]);
+                        }
+                    }
+                }
+                want[best.0] += g[(cc * oh + a) * ow + b];
+            }
+        }
+    }
+    rep.transitions += 2;
+    let res = guard(|| match &lib.layers[0] {
+        Layer::Maxpool(m) => {
+            let (_, _, max) = m.forward(&tensor(Dims::Chw(c, h, w), &x));
+            m.backward(&tensor(Dims::Chw(oc, oh, ow), &g), &max)
+        }
+        _ => panic!("not a pool"),
+    });
+    match res.and_then(|t| flat_dims(&t)) {
+        Ok((_, got)) => {
+            if got.len() != want.len() || (0..got.len()).any(|i| got[i] != want[i]) {
+                rep.violate("C01 pool input gradient on extreme finite values", format!("{} input {:?}: gradient {:?}, routing to the window maxima gives {:?}", net.name(), x, got, want), case);
+            }
+        }
+        Err(e) => rep.violate("C01 pool backward panics", crate::util::first_line(&e), case),
     }
 }
 
@@ -490,6 +555,12 @@ pub fn cases(ctx: &Ctx) -> Vec<Kv> {
             out.push(Kv::new().put("kind", "hlayer").put("layer", kn).put("ix", ixs(&ix)).put("act", if h % 2 == 0 { "linear" } else { "tanh" }).put("flat_in", h % 2).put("flat_grad", (h / 2) % 2));
         }
     }
+    // max-pool windows over extreme finite values (f32::MIN .. f32::MAX), every rotation
+    for (kh, kw, sh, sw) in [(1usize, 1usize, 1usize, 1usize), (1, 2, 1, 1), (2, 1, 1, 2), (2, 2, 1, 1), (2, 2, 2, 2), (3, 3, 1, 1), (1, 1, 2, 2)] {
+        for rot in 0..12 {
+            out.push(Kv::new().put("kind", "poolx").put("kh", kh).put("kw", kw).put("sh", sh).put("sw", sw).put("rot", rot));
+        }
+    }
     // wide dense layers, alone and behind another layer (the input gradient of the second one matters)
     for (n_in, n_out) in [(33usize, 2usize), (2, 33), (65, 64), (100, 7)] {
         let net = Net::new(Dims::Flat(n_in), vec![L::Dense { n: n_out, act: Act::Tanh, bias: true, drop: None }]);
@@ -536,6 +607,23 @@ pub fn cases(ctx: &Ctx) -> Vec<Kv> {
             }
         }
     }
+    // soft-max output layers that are convolutions / deconvolutions (soft-max over all elements of the output tensor)
+    for input in [Dims::Chw(1, 2, 3), Dims::Chw(2, 3, 3)] {
+        for head in [
+            L::Conv { f: 1, k: (1, 1), s: (1, 1), p: (0, 0), d: (1, 1), act: Act::Softmax, drop: None },
+            L::Conv { f: 2, k: (2, 2), s: (1, 1), p: (0, 0), d: (1, 1), act: Act::Softmax, drop: None },
+            L::Deconv { f: 1, k: (2, 2), s: (1, 1), p: (0, 0), act: Act::Softmax, drop: None },
+        ] {
+            for before in [vec![], vec![L::Conv { f: 2, k: (2, 2), s: (1, 1), p: (1, 1), d: (1, 1), act: Act::Tanh, drop: None }]] {
+                let mut layers = before.clone();
+                layers.push(head.clone());
+                let net = Net::new(input, layers);
+                if ref_shapes(&net).is_ok() {
+                    out.push(Kv::new().put("kind", "softmax").put("net", net.name()));
+                }
+            }
+        }
+    }
     // plain soft-max heads
     for n_in in [1usize, 2, 4] {
         for width in [2usize, 3, 5] {
@@ -578,6 +666,7 @@ pub fn check(seed: u64, case: &Kv, rep: &mut Report) {
             let (input, l) = heavy_point(kind, &ix, Act::parse(case.get("act"))).expect("invalid heavy lattice point");
             check_layer(&Net::new(input, vec![l]), case.bool("flat_in"), case.bool("flat_grad"), seed, case, rep);
         }
+        "poolx" => check_pool_extreme(case, rep),
         "dense" => check_layer(&Net::parse(case.get("net")), false, false, seed, case, rep),
         "net" | "softmax" => {
             let via = case.opt("via") == Some("set_activation");
